@@ -39,11 +39,39 @@ func main() {
 	writeBaseline := flag.Bool("write-baseline", false, "print the function inventory of -repo (checker/baseline_decls.txt is this list for the pinned tree)")
 	noEvidence := flag.Bool("no-evidence", false, "do not write evidence (used by the self-test on scratch copies)")
 	verbose := flag.Bool("v", false, "print every obligation")
+	catalogue := flag.Bool("catalogue", false, "print the property/rule catalogue as markdown (appendix of DESIGN.md)")
 	dump := flag.String("dump", "", "print the body of this function (\"T.m\" or \"f\", package connect or the generator) as analysed, i.e. after helper inlining")
 	flag.Parse()
 
 	if *manifest {
 		printManifest()
+		return
+	}
+	if *catalogue {
+		for _, id := range rules.PropertyIDs() {
+			p := rules.Properties[id]
+			fmt.Printf("### %s — %s\n\n", id, p.Title)
+			fmt.Printf("*Decided (necessary structural conditions):* %s\n\n", p.Decided)
+			fmt.Printf("*Not decided:* %s\n\n", p.NotDecided)
+			fmt.Printf("*Rules (%d):* %s\n\n", len(p.Rules), strings.Join(p.Rules, ", "))
+		}
+		fmt.Printf("### Rule statements\n\n")
+		var ids []string
+		for id := range rules.Registry {
+			ids = append(ids, id)
+		}
+		sort.Strings(ids)
+		for _, id := range ids {
+			var used []string
+			for _, pid := range rules.PropertyIDs() {
+				for _, r := range rules.Properties[pid].Rules {
+					if r == id {
+						used = append(used, pid)
+					}
+				}
+			}
+			fmt.Printf("* **%s** (%s) — %s\n", id, strings.Join(used, " "), rules.Registry[id].Doc)
+		}
 		return
 	}
 	if *writeBaseline {
